@@ -53,6 +53,7 @@ def gen_rows(rng, used, n=None, start=None):
     d = start or (dt.date(1995, 1, 1) + dt.timedelta(days=rng.randint(0, 12700)))
     rows = []
     nan_p = rng.choice([0.0, 0.0, 0.1, 0.3])
+    stale = rng.random() < 0.25
     base = 10 ** rng.uniform(0, 3)
     for i in range(n):
         def val():
@@ -75,7 +76,12 @@ def gen_rows(rng, used, n=None, start=None):
             a = None       # a missing raw Close always comes with a missing Adj Close (see DESIGN.md C06 limits)
         elif rng.random() < nan_p / 2:
             a = None       # Adj Close blank on its own: with adjustment on, that bar has no adjusted open/close
-        rows.append({'date': d.isoformat(), 'open': o, 'close': c, 'adj': a})
+        row = {'date': d.isoformat(), 'open': o, 'close': c, 'adj': a}
+        if stale and rows and rng.random() < 0.25:
+            # an untraded day: the vendor repeats an earlier bar in every column (volume included)
+            k = rng.randrange(len(rows))
+            row = dict(rows[k], date=d.isoformat(), volume=rows[k].get('volume', 1000 + k))
+        rows.append(row)
         d = d + dt.timedelta(days=rng.choice([1, 1, 1, 1, 2, 3, 3, 4, 7, 10, 30]))
     return rows
 
@@ -279,11 +285,63 @@ def check_answer(ds, asset, t, got, what, acc, prop='C06'):
         raise Violation(prop, 'oracle-bug', 'internal: expected event later than t')
 
 
+def check_historical_closes(ds, src, acc, rng):
+    """get_assets_historical_closes(start, end, assets): the raw closes of exactly the bars dated within [start, end]."""
+    assets = sorted(ds.ev)
+    cells = {}
+    for sym, f in ds.spec['files'].items():
+        for r in f['rows']:
+            if r['close'] is not None:
+                cells[('EQ:' + sym, r['date'])] = r['close']
+    dates = sorted({d for _, d in cells})
+    if not dates:
+        return
+    d_lo, d_hi = dt.date.fromisoformat(dates[0]), dt.date.fromisoformat(dates[-1])
+    for _ in range(4):
+        a_ = d_lo + dt.timedelta(days=rng.randint(-3, max(0, (d_hi - d_lo).days)))
+        b_ = a_ + dt.timedelta(days=rng.randint(0, max(1, (d_hi - a_).days + 3)))
+        start = cal.at(a_, dt.time(rng.choice([0, 0, 14]), rng.choice([0, 30])))
+        end = cal.at(b_, dt.time(rng.choice([0, 14, 21, 23]), rng.choice([0, 30, 59])))
+        if end < start:
+            continue
+        ask = rng.sample(assets, rng.randint(1, len(assets)))
+        try:
+            df = src.get_assets_historical_closes(tstamp(start), tstamp(end), ask)
+        except Exception as e:
+            if core.from_repo(e):
+                raise Violation('C06', 'historical-closes-raised/%s' % type(e).__name__, 'get_assets_historical_closes(%s, %s, %s) '
+                                'raised %r' % (start, end, ask, e), {'start': str(start), 'end': str(end)})
+            raise
+        got = {}
+        for ts_, row in df.iterrows():
+            for a2 in df.columns:
+                v = row[a2]
+                if v == v:
+                    got[(a2, pd.Timestamp(ts_).tz_convert('UTC').date().isoformat())] = float(v)
+        want = {k: v for k, v in cells.items() if k[0] in ask and
+                start <= cal.at(dt.date.fromisoformat(k[1]), dt.time(0, 0)) <= end}
+        if got != want:
+            extra = sorted(k for k in got if k not in want)
+            late = [k for k in extra if cal.at(dt.date.fromisoformat(k[1]), dt.time(0, 0)) > end]
+            key = 'historical-closes/after-the-end' if late else 'historical-closes/wrong-rows'
+            raise Violation('C06', key, 'get_assets_historical_closes(%s, %s, %s): rows %s not expected, rows %s missing, %d values differ'
+                            % (start, end, ask, extra[:3], sorted(k for k in want if k not in got)[:3],
+                               sum(1 for k in want if k in got and got[k] != want[k])), {'start': str(start), 'end': str(end)})
+        acc.count('C06:historical_close_ranges_checked')
+
+
 def run_dataset(ds, acc, rng, n_extra=0):
     from qstrader.data.daily_bar_csv import CSVDailyBarDataSource
     from qstrader.data.backtest_data_handler import BacktestDataHandler
+    if rng.random() < 0.4:
+        # another data source over the same files with the other price-adjustment setting, built (and used) first
+        other = CSVDailyBarDataSource(ds.dir, None, adjust_prices=not ds.adjust)
+        for asset in list(ds.ev)[:2]:
+            other.get_bid(tstamp(ds.ev[asset][-1][0]), asset) if ds.ev[asset] else None
+        acc.count('C06:datasets_after_a_source_with_the_other_adjustment')
     with core.loud(len(ds.ev) % 2 == 0 and rng.random() < 0.3):
         src = CSVDailyBarDataSource(ds.dir, None, adjust_prices=ds.adjust)
+    check_historical_closes(ds, src, acc, rng)
     src2 = CSVDailyBarDataSource(ds.dir2, None, adjust_prices=ds.adjust)
     handler = BacktestDataHandler(None, data_sources=[src])
     acc.count('C06:datasets')
